@@ -4,7 +4,7 @@
    record PopEDNS0 finds (0 when there is none); every response the router builds carries its own 11-octet OPT or
    none, so the side condition [opt_len m + 12 <= eff_size size] always holds there. *)
 From Mos Require Import Base.Prelude Codec.Name Codec.Msg Codec.Spec Codec.NameProofs Codec.SafetyProofs
-  Codec.WfProofs Codec.RoundtripProofs Codec.TruncProofs Router.Rules Router.Edns Router.Router Router.RouterProofs.
+  Codec.WfProofs Codec.RoundtripProofs Codec.TruncProofs Codec.CompressProofs Router.Rules Router.Edns Router.Router Router.RouterProofs.
 
 (* Packing a well-formed message (hence: any decoded message, C01_decode_wf) into a buffer of Msg.Len octets never
    fails — with or without compression, with or without a size limit. *)
@@ -91,11 +91,24 @@ Proof.
 Qed.
 Print Assumptions C09_listener_limits.
 
-(* C09_compressed_wellformed_partial: with compression ON the size bound (C09_size), "nothing omitted when it fits"
-   (C09_fits_untouched) and totality (C09_pack_total) are proved above; that the compressed truncated output decodes
-   to the kept records is NOT proved (it needs the compression-table invariant of the compressed round trip, which
-   is itself refuted beyond 10 pointer hops: C02_deep_chain_refuted).  It is checked on every run by evaluating
-   [spec_packsize true] on the bytes the implementation and the model both produce. *)
+(* With compression ON (what the listeners use), for messages none of whose names has more than 10 labels: the
+   size-limited encoding decodes cleanly, whatever follows it — the header counts are the records present —, to a
+   message whose header is the original with TC := TC || (something omitted), whose questions, answers and
+   authorities are order-preserving sublists of the original ones (records compared by view: everything except the
+   stored RDLENGTH), and whose additionals are a sublist of the non-OPT additionals followed by the OPT record.
+   (The size bound, totality and "fits untouched" above already hold with compression.) *)
+Theorem C09_compressed_wellformed : forall (size : nat) (m : msg) (trailing : list N),
+  wf_msg m -> msg_depth_ok m -> 0 < size ->
+  exists out m' kq ka kn kr,
+    pack_msg (msg_len m) true size m = Ok out /\ unpack_msg (out ++ trailing) = Ok m' /\
+    sublist kq (m_qs m) /\ sublist ka (m_an m) /\ sublist kn (m_ns m) /\ sublist kr (snd (pop_opt (m_ar m))) /\
+    m_qs m' = kq /\ map rr_view (m_an m') = map rr_view ka /\ map rr_view (m_ns m') = map rr_view kn /\
+    map rr_view (m_ar m') = map rr_view (kr ++ opt_list m) /\
+    m_hdr m' = set_tc (m_hdr m) (h_tc (m_hdr m) ||
+                 negb ((length kq =? length (m_qs m)) && (length ka =? length (m_an m)) &&
+                       (length kn =? length (m_ns m)) && (length kr =? length (snd (pop_opt (m_ar m)))))).
+Proof. exact compressed_truncated. Qed.
+Print Assumptions C09_compressed_wellformed.
 
 (* non-vacuity: 60 A records at limit 512 are truncated to 28 with TC set, 11-octet OPT retained *)
 Definition ex_rr (i : N) : rr := mkRR [1; 97]%N 1 1 60 4 (RA [10; 0; 0; i]%N).
